@@ -71,6 +71,16 @@ def inproc_restart(st, op):
     return "ok"
 
 
+def flag_op(rng, cfg, st):
+    """A flip of the process-wide caching flag, or None."""
+    p = cfg.get("p_flag")
+    if p and rng.random() < p:
+        st.stats["probe:caching-flag-flipped-between-structural-calls"] += 1
+        st.stats["fault:flag-flip"] += 1
+        return {"op": "flag", "on": rng.random() < 0.6}
+    return None
+
+
 def restart_op(rng):
     return {"op": "roundtrip", "proto": rng.randint(0, 5), "loader": rng.choice(["pickle", "dill"])}
 
@@ -167,6 +177,9 @@ def std_struct_config(rng, *, kinds, always=(), multi_p=0.3, lo=3, hi=60, mean=1
     cfg["restarts"] = rng.random() < 0.3  # pickle round trips (in process) in mid-history
     cfg["p_item_syntax"] = rng.choice([0.0, 0.0, 0.3])  # e["v2"] = x instead of e.v2 = x
     cfg["p_w_error"] = rng.choice([0.0, 0.0, 0.15])  # calls made with warnings turned into errors
+    # the application flips Vertex.NEIGHBOR_CACHING between two calls (the
+    # structural properties do not mention the flag: they hold whatever it is)
+    cfg["p_flag"] = rng.choice([0.0, 0.0, 0.05, 0.15])
     cfg["multi"] = rng.random() < multi_p
     cfg["nmv"] = rng.randint(1, 3)
     kinds = list(kinds)
@@ -210,6 +223,9 @@ class ModelProperty(engine.Property):
             return None
         if cfg.get("restarts") and rng.random() < 0.04:
             return restart_op(rng)
+        fl = flag_op(rng, cfg, st)
+        if fl is not None:
+            return fl
         for _ in range(20):
             kind = gen.weighted_choice(rng, cfg["weights"])
             op = st.gen.draw(rng, st.view, st.namer, kind)
